@@ -128,11 +128,19 @@ func generate(r *simkit.Rand, prop, tier string) *simkit.Plan {
 		case "read":
 			st.B = []simkit.HexBytes{keys[r.Intn(len(keys))]}
 		}
-		if faulty && r.Chance(0.1) && (st.Op == "save" || st.Op == "remove" || st.Op == "read" || st.Op == "resave") {
+		pFault := 0.1
+		if prop == "C07" {
+			pFault = 0.25
+		}
+		if faulty && r.Chance(pFault) && (st.Op == "save" || st.Op == "remove" || st.Op == "read" || st.Op == "resave") {
 			st.Fault = "get_error"
 			if len(st.B) == 0 && r.Chance(0.7) {
-				st.FaultAt = r.Range(1, 8) // n-th read of the step (only honoured for saves without storage writes)
+				st.FaultAt = r.Range(1, 12) // n-th read of the step (only honoured for saves without storage writes)
 			}
+		}
+		if faulty && st.Op == "commit" && r.Chance(0.15) {
+			st.Fault = "put_error" // disk full from the n-th write of this Commit on
+			st.FaultAt = r.Intn(8)
 		}
 		p.Steps = append(p.Steps, st)
 	}
